@@ -231,6 +231,56 @@ func extractMatrix(c *Ctx, fn *ssa.Function) map[string]map[string]bool {
 		}
 		m[state][action] = true
 	})
+	if len(m) >= 5 {
+		return m
+	}
+	// the table as calls of a local publisher: `allow := func(names ...string) { for _, n := range
+	// names { r.Actions[n] = link(n) } }` called once per state with the action names
+	eachInstr(fn, func(in ssa.Instruction) {
+		cl, ok := in.(*ssa.Call)
+		if !ok {
+			return
+		}
+		mc, ok := cl.Call.Value.(*ssa.MakeClosure)
+		if !ok {
+			return
+		}
+		pub, ok := mc.Fn.(*ssa.Function)
+		if !ok || len(pub.Params) != 1 {
+			return
+		}
+		PR := NewRenderer(pub)
+		publishes := false
+		eachInstr(pub, func(x ssa.Instruction) {
+			if mu, ok := x.(*ssa.MapUpdate); ok && strings.HasSuffix(PR.V(mu.Map), ".Actions") && PR.V(mu.Key) == "$0[*]" {
+				publishes = true
+			}
+		})
+		if !publishes {
+			return
+		}
+		names, _ := flattenVariadic(&cl.Call)
+		if names == nil {
+			return
+		}
+		state := "?"
+		for _, a := range controlAtoms(fn, R, in.Block()) {
+			if strings.HasPrefix(a, `+"`) && strings.HasSuffix(a, " ==0") && strings.Contains(a, `" -$`) {
+				state = a[2:strings.Index(a, `" -$`)]
+				break
+			}
+		}
+		for _, nv := range names {
+			kc, ok := strip(nv).(*ssa.Const)
+			if !ok {
+				return
+			}
+			if m[state] == nil {
+				m[state] = map[string]bool{}
+			}
+			m[state][strings.Trim(constString(kc), `"`)] = true
+		}
+	})
 	return m
 }
 
